@@ -21,7 +21,7 @@ def codec_c12(tier, seed):
         jobs.append(J('decoder_format[%s]' % sk, 'jobs.codec:decoder_format', dict(skeleton=sk), timeout=300))
     for shape, bits in [([4], 5), ([5], 5), ([1], 6), ([1, 4], 3), ([4, 1], 3), ([4, 4], 2), ([5, 4], 2), ([4, 5], 2), ([5, 5], 1), ([5, 1, 4], 1)]:
         jobs.append(J('roundtrip%s/b%d' % (shape, bits), 'jobs.codec:roundtrip', dict(shape=shape, bits=bits), timeout=400))
-    for shape, bits in [([4], 5), ([4, 4], 3), ([5, 1], 3)]:
+    for shape, bits in [([4], 5), ([4, 4], 3), ([5, 1], 3), ([1, 4], 3), ([1, 5, 4], 2)]:
         jobs.append(J('lines_only%s/b%d' % (shape, bits), 'jobs.codec:lines_only', dict(shape=shape, bits=bits), timeout=400))
     jobs.append(J('tv_codec', 'jobs.codec:tv_codec', dict(n=300, seed=seed), timeout=300))
     if tier == 'thorough':
@@ -41,6 +41,7 @@ def codec_c11(tier, seed):
     for shape, bits in [([4], 5), ([5, 4], 2), ([1, 4], 3)]:
         jobs.append(J('roundtrip%s/b%d' % (shape, bits), 'jobs.codec:roundtrip', dict(shape=shape, bits=bits), timeout=400))
     jobs.append(J('lines_only[4, 4]/b3', 'jobs.codec:lines_only', dict(shape=[4, 4], bits=3), timeout=400))
+    jobs.append(J('lines_only[1, 4]/b3', 'jobs.codec:lines_only', dict(shape=[1, 4], bits=3), timeout=400))
     return jobs
 
 
@@ -150,6 +151,8 @@ C13_QUICK = [
     ('inner:boxed(orig3)', BX(O('???')), 'inner'),
     ('inner:replace(orig3,[])', RP(O('???')), 'inner'),
     ('inner:replace(orig a;b,[empty at sym])', RP(O('a;b'), (Q, Q, '')), 'inner-if-empty'),
+    ('uncached:concat[cached(concat[orig x/??,orig c? b]),orig z c] (real rope.rs) after map', CC(CA(CC(O('x\n??'), O('c?', 'b.js'))), O('z', 'c.js')), 'uncached', dict(history=['map1'], rope='real')),
+    ('uncached:concat[cached(concat[rawstr a/b,rawstr c]),orig z] (real rope.rs) after stream', CC(CA(CC(RS('!\n!'), RS('!'))), O('z?')), 'uncached', dict(history=['c1f0'], rope='real')),
 ]
 
 
@@ -158,6 +161,9 @@ def SM(text, mappings, sources=('o.js',), contents=(), names=(), root=None, max=
     if root is not None: mp['sourceRoot'] = root
     return {'kind': 'sms', 'text': text, 'name': 'x.js', 'map': mp}
 
+
+# consecutive lines from different files whose original lines are consecutive (the lines-only encoder's 'next line' shortcut)
+TREES_QUICK.append(('concat[orig ?/,sms(b -> o.js line 2)]', CC(O('?\n'), SM('b', 'AACA', ('o.js',)))))
 
 SMS_QUICK = [
     ('sms(abcd/ef,2 lines,names,root r)', SM('abcd\nef', 'AAAA,?AA??;?AAA', ('o.js', 'p.js'), ('xyz\nuv',), ('nm', 'n2'), 'r')),
@@ -176,6 +182,10 @@ SMS_QUICK = [
     ('concat[sms(ab/ trailing newline, zero-width last segment),orig c b]', CC(SM('ab\n', 'AAAA;?A?A', ('o.js',)), O('c', 'b.js'))),
     ('sms(ab, absolute source + root)', SM('ab', 'AAAA,CCAA', ('/abs/o.js', 'rel.js'), (), (), 'w://p')),
     ('sms(ab, only unmapped segments)', SM('ab', 'A,C', ('o.js',))),
+    ('concat[orig ab,sms(xx/yyzz first line unmapped, symbolic column)]', CC(O('ab'), SM('xx\nyyzz', ';?AAA', ('o.js',)))),
+    ('concat[sms(abcd named,unnamed,named at one original position),rawstr1]', CC(SM('abcd', 'AAAAA,CAAA,CAAAA,C', ('o.js',), (), ('n1',)), RS('!'))),
+    ('concat[sms(abc unnamed then named at one original position),rawstr1]', CC(SM('abc', 'AAAA,CAAAA,?AAA', ('o.js',), (), ('n1',)), RS('!'))),
+    ('sms(ab, root ending in several slashes)', SM('ab', 'AAAA,CCAA', ('s/a.js', 'b.js'), (), (), 'webpack:///')),
 ]
 SMS_WILD = [
     ('wild:sms(ab/cd,any single digits)', SM('ab\ncd', '????;A???', ('o.js',), ('ab',), ('n',), None, 8, False)),
@@ -208,12 +218,38 @@ COMBINED_QUICK = [
     ('combined: outer name reused where the text differs', SMC('abcd', 'AAAAA,CAAEA', ('i.js',), 'AAAA,EAAE', ('q.js',), 'xyzw', outer_names=('xy',), inner_contents=('xyzw',))),
     ('combined: outer name resolved by pass-through first', SMC('abcd', 'ACAAA,CDAEA', ('i.js', 'o.js'), 'AAAA,EAAE', ('q.js',), 'xyzw', outer_names=('zz',), inner_contents=('xyzw',))),
     ('combined under concat', CC(SMC('ab', 'AAAA,CAA?', ('i.js',), 'AAAA,CAAE', ('q.js',), 'xyz'), RS('!'))),
+    ('combined: next line passes through to another source on the next original line', SMC('ab\ncd', 'AAAA;ACCA', ('i.js', 'o.js'), 'AAAA', ('q.js',), 'xyz\nuv', outer_contents=('xyz\nuv', 'o1\no2'))),
+    ('combined: lines resolve to different inner sources on consecutive original lines', SMC('ab\ncd', 'AAAA;AACA', ('i.js',), 'AAAA;ACCA', ('q.js', 'r.js'), 'xyz\nuv', inner_contents=('q1\nq2', 'r1\nr2'))),
+]
+
+
+SMS_THOROUGH = [
+    ('sms(ab/cd/ef,3 lines,6 symbolic fields)', SM('ab\ncd\nef', 'AAAA,?AAA;?AAA;?AA?', ('o.js',), ('xy\nuv\nw',))),
+    ('sms(abcdefgh,wide columns < 16)', SM('abcdefgh', 'AAAA,?AAA,?AA?', ('o.js',), (), (), None, 16)),
+    ('sms(abcd,symbolic names)', SM('abcd', 'AAAA?,CAAA?,CAAA', ('o.js',), (), ('n0', 'n1', 'n2'), None, 8)),
+    ('sms(ab/cd,symbolic source index,root r/)', SM('ab\ncd', 'A?AA,C?AA;A?AA', ('o.js', 'p.js', 'q.js'), ('1', '2', '3'), (), 'r/', 8)),
+    ('sms(a//b,two empty lines symbolic)', SM('a\n\n\nb', '?AAA;;?;?AAA', ('o.js',))),
+    ('nested[[sms(ab/cd),rawstr1],orig1]', CC(BX(CC(SM('ab\ncd', 'AAAA,?AAA;?ACA', ('o.js',)), RS('!'))), O('?', 'b.js'))),
+    ('concat[rawstr a/,sms(ab/cd),rawstr /x]', CC(RS('a\n'), SM('ab\ncd', '?AAA,?AAA;AAC?', ('o.js',), ('01\n23',)), RS('\nx'))),
+    ('replace(sms(ab/cd named),[sym X/],[sym del])', RP(SM('ab\ncd', 'AAAAA,CAACC;AACA', ('o.js',), ('ab\ncd',), ('n1', 'n2')), (Q, Q, 'X\n'), (Q, Q, ''))),
+    ('concat[sms(ab),sms(cd) same source other content]', CC(SM('ab', 'AAAA,?AAA', ('o.js',), ('ab',)), SM('cd', '?AAA,CAAC', ('p.js',), ('cd',)))),
+]
+COMBINED_THOROUGH = [
+    ('combined: 2-line inner, outer line and column symbolic', SMC('ab\ncd', 'AAAA,CA??;AA??', ('i.js',), 'AAAA,CAAC;AACA,CAAC', ('q.js',), 'xyz\nuv', inner_contents=('0123\n4567',))),
+    ('combined: inner source index symbolic, 2 inner sources', SMC('abcd', 'AAAA,CAAC', ('i.js',), 'A?AA,C?AC', ('q.js', 'r.js'), 'xyzw', inner_contents=('qq', 'rr'), max=4)),
+    ('combined: remove original, outer second source, symbolic', SMC('ab\ncd', 'AAAA,CCA?;ADC?', ('i.js', 'o.js'), '?AAA;AACA', ('q.js',), 'xyz\nuv', remove=True, outer_contents=('xyz\nuv', 'oo'))),
+    ('combined: names on both sides symbolic column', SMC('abcdef', 'AAAAA,CAA?C,CAA?', ('i.js',), 'AAAAA,CAACC,CAAC', ('q.js',), 'xyzwvu', outer_names=('xy', 'zw'), inner_names=('n0', 'n1'), inner_contents=('xyzwvu',))),
+    ('combined with sourceRoot', SMC('ab', 'AAAA,CAA?', ('i.js',), 'AAAA,CAAE', ('q.js',), 'xyz', root='r')),
+    ('combined under replace', RP(SMC('abcd', 'AAAA,CAA?', ('i.js',), 'AAAA,CAAE', ('q.js',), 'xyzw', inner_contents=('0123456',)), (Q, Q, 'X'))),
 ]
 
 
 def combined_jobs(props):
     def f(tier, seed):
-        return [J('tree:' + t[0], 'jobs.streams:tree_job', dict(tree=t[1], props=props), timeout=900) for t in COMBINED_QUICK]
+        jobs = [J('tree:' + t[0], 'jobs.streams:tree_job', dict(tree=t[1], props=props), timeout=900) for t in COMBINED_QUICK]
+        if tier == 'thorough':
+            jobs += [J('tree:' + t[0], 'jobs.streams:tree_job', dict(tree=t[1], props=props), required=False, timeout=3000) for t in COMBINED_THOROUGH]
+        return jobs
     return f
 
 
@@ -222,6 +258,9 @@ def sms_jobs(props, wild=False):
         jobs = []
         for t in (SMS_WILD if wild else SMS_QUICK):
             jobs.append(J('tree:' + t[0], 'jobs.streams:tree_job', dict(tree=t[1], props=props), timeout=600))
+        if tier == 'thorough' and not wild:
+            for t in SMS_THOROUGH:
+                jobs.append(J('tree:' + t[0], 'jobs.streams:tree_job', dict(tree=t[1], props=props), required=False, timeout=3000))
         return jobs
     return f
 
@@ -249,6 +288,9 @@ BIN_TREES = [
     ('concat[raw buffer e2 82,orig]', CC({'kind': 'raw', 'text': '', 'bytes': [0xE2, 0x82]}, O('a'))),
     ('rawbuf invalid utf8', {'kind': 'rawbuf', 'text': '', 'bytes': [0xC3, 40, 0x80]}),
     ('cached(concat[rawbuf,rawbuf])', CA(CC({'kind': 'rawbuf', 'text': '', 'bytes': [0xF0, 0x9F]}, {'kind': 'rawbuf', 'text': '', 'bytes': [0x98, 0x80]}))),
+    ('replace(rawbuf invalid utf8,[])', RP({'kind': 'rawbuf', 'text': '', 'bytes': [97, 255, 98]})),
+    ('concat[replace(raw invalid utf8,[]),rawstr]', CC(RP({'kind': 'raw', 'text': '', 'bytes': [0xE2, 0x82, 97]}), RS('!'))),
+    ('cached(replace(rawbuf invalid utf8,[X at 0]))', CA(RP({'kind': 'rawbuf', 'text': '', 'bytes': [97, 255, 98]}, (0, 1, 'X')))),
 ]
 
 
@@ -257,6 +299,14 @@ def views_jobs(tier, seed):
     for cat in (TREES_QUICK, REPLACE_QUICK, SMS_QUICK[:4]):
         for t in cat:
             jobs.append(J('views:' + t[0], 'jobs.streams:tree_job', dict(tree=t[1], props=['C07'], what=VIEWS, alphabet=t[2] if len(t) > 2 and isinstance(t[2], str) else 'q'), timeout=600))
+    # the same ReplaceSource trees with rope() (then size, buffer) as the FIRST call after the last mutation: no earlier observer has sorted
+    for t in REPLACE_QUICK[:9] + HISTORY_QUICK:
+        jobs.append(J('views/rope-first:' + t[0], 'jobs.streams:tree_job', dict(tree=t[1], props=['C07'], what=['rope', 'size', 'buffer', 'source', 'writer']), timeout=600))
+        jobs.append(J('views/size-first:' + t[0], 'jobs.streams:tree_job', dict(tree=t[1], props=['C07'], what=['size', 'writer', 'rope', 'source', 'buffer']), timeout=600))
+    if tier == 'thorough':
+        for cat in (TREES_THOROUGH, REPLACE_THOROUGH, SMS_QUICK[4:], COMBINED_QUICK[:4], [(n, t) for (n, t, _) in C10_QUICK]):
+            for t in cat:
+                jobs.append(J('views:' + t[0], 'jobs.streams:tree_job', dict(tree=t[1], props=['C07'], what=VIEWS, alphabet=t[2] if len(t) > 2 and isinstance(t[2], str) else 'q'), required=False, timeout=2400))
     return jobs
 
 
@@ -273,11 +323,36 @@ C10_QUICK = [
     ('cached(concat[rawstr,orig blank lines,rawstr]) x 2 symbolic ops', CA(CC(RS('x\n'), O('\n\n'), RS('y'))), dict(history_slots=2)),
     ('cached(concat[orig a,orig b other file]) x 2 symbolic ops', CA(CC(O('a'), O('b', 'b.js'), RS('!'))), dict(history_slots=2)),
     ('cached(cached(orig2)) x 2 symbolic ops', CA(CA(O('??'))), dict(history_slots=2, alt='uncached')),
+    ('cached(concat[sms without contents,orig with content]) x 2 symbolic ops', CA(CC(SM('ab', 'AAAA', ('o.js',)), O('c?', 'b.js'))), dict(history_slots=2)),
+    ('concat[cached(concat[orig x/??,orig c? b]),orig z c] (real rope.rs) after map', CC(CA(CC(O('x\n??'), O('c?', 'b.js'))), O('z', 'c.js')), dict(history=['map1'], alt='uncached', rope='real')),
+    ('concat[cached(concat[rawstr a/b,rawstr c]),orig z] (real rope.rs) x 1 symbolic op', CC(CA(CC(RS('!\n!'), RS('!'))), O('z?')), dict(history_slots=1, alt='uncached', rope='real')),
+    ('cached(replace(orig abcdef,[sym OUT],[sym in])) after stream', CA(RP(O('abcdef'), (Q, Q, 'OUT'), (Q, Q, 'in'))), dict(history=['c1f0'])),
+]
+
+
+C10_THOROUGH = [
+    ('cached(concat[orig a;/?,rawstr1]) x 4 symbolic ops', CA(CC(O('a;\n?'), RS('!'))), dict(history_slots=4)),
+    ('cached(orig sym3) x 3 symbolic ops', CA(O('???')), dict(history_slots=3)),
+    ('cached(replace(orig ab;c,[sym X named],[sym del])) x 2 symbolic ops', CA(RP(O('ab;c'), (Q, Q, 'X', 'n'), (Q, Q, ''))), dict(history_slots=2)),
+    ('cached(sms 2 lines symbolic digits) x 3 symbolic ops', CA(SM('abcd\nef', 'AAAA,?AAAA;?AAA', ('o.js', 'p.js'), ('xyz\nuv',), ('nm', 'n2'), 'r')), dict(history_slots=3)),
+    ('cached(combined) x 2 symbolic ops', CA(SMC('ab\ncd', 'AAAA,CAAC;AAC?', ('i.js',), 'AAAA,?AAC', ('q.js',), 'xyz\nuv')), dict(history_slots=2)),
+    ('cached(nested[[orig2,rawstr1],rawstr1]) x 2 symbolic ops', CA(CC(BX(CC(O('??'), RS('!'))), RS('!'))), dict(history_slots=2)),
+    ('concat[cached(orig a;),cached(orig b other file)] x 2 symbolic ops', CC(CA(O('a;')), CA(O('?', 'b.js'))), dict(history_slots=2, alt='uncached')),
+    ('cached(replace(cached(orig a;b),[sym X])) x 2 symbolic ops', CA(RP(CA(O('a;b')), (Q, Q, 'X'))), dict(history_slots=2, alt='uncached')),
+    ('cached(empty concat) x 2 symbolic ops', CA(CC()), dict(history_slots=2)),
+    ('cached(rawbuf a/b) x 3 symbolic ops', CA(RB('!\n!')), dict(history_slots=3)),
 ]
 
 
 def c10_jobs(tier, seed):
     jobs = []
+    if tier == 'thorough':
+        for t in C10_THOROUGH:
+            p = dict(tree=t[1], props=['C10'], alt='inner', alt_prop='C10', what=OBS10)
+            p.update(t[2])
+            jobs.append(J('cached:' + t[0], 'jobs.streams:tree_job', p, required=False, timeout=3000))
+            p2 = dict(p, what=['map0', 'map1', 'c0f1', 'c1f1', 'c0f0', 'c1f0', 'source'], history_slots=min(2, t[2]['history_slots']))
+            jobs.append(J('cached/maps-first:' + t[0], 'jobs.streams:tree_job', p2, required=False, timeout=3000))
     for t in C10_QUICK:
         p = dict(tree=t[1], props=['C10'], alt='inner', alt_prop='C10', what=OBS10)
         p.update(t[2])
@@ -322,11 +397,16 @@ EQ_QUICK = [
     ('concat[orig,rawstr]', CC(O('a?'), RS('!')), 1), ('concat[]', CC(), 0), ('nested concat', CC(BX(CC(O('?'), RS('a'))), RB('b')), 1),
     ('replace 2 unsorted', RP(O('abcd'), (2, 3, 'X', 'n'), (0, 1, 'Y')), 2), ('replace none', RP(O('a?')), 1),
     ('cached(orig)', CA(O('a?')), 2), ('cached(replace)', CA(RP(O('abc'), (1, 2, 'X'))), 1),
+    ('cached(concat[sms without contents,orig])', CA(CC(SM('ab', 'AAAA', ('o.js',)), O('c?', 'b.js'))), 2),
     ('raw binary', {'kind': 'raw', 'text': '', 'bytes': [0xE2, 0x82, 97]}, 1), ('rawbuf binary', {'kind': 'rawbuf', 'text': '', 'bytes': [0xF8, 97]}, 1),
 ]
 EQ_PAIRS = [
     ('replace: hash between the mutations vs all at once', RP(O('abcd'), (2, 3, 'X', None, 1, ['hash']), (0, 1, 'Y')), RP(O('abcd'), (2, 3, 'X'), (0, 1, 'Y'))),
     ('replace: source between the mutations vs all at once', RP(O('abcd'), (2, 3, 'X', 'n', 1, ['source']), (0, 1, 'Y'), (3, 4, 'Z', None, 0, ['hash'])), RP(O('abcd'), (2, 3, 'X', 'n'), (0, 1, 'Y'), (3, 4, 'Z', None, 0))),
+]
+EQ_PAIRS += [
+    ('replace: out-of-order pair, observation, then one in between', RP(O('abcdefgh'), (6, 7, 'X'), (1, 2, 'Y', None, 1, ['source']), (3, 4, 'Z')), RP(O('abcdefgh'), (6, 7, 'X'), (1, 2, 'Y'), (3, 4, 'Z'))),
+    ('replace: out-of-order pair, hash, then an equal key', RP(O('abcdefgh'), (6, 7, 'X'), (1, 2, 'Y', None, 1, ['hash']), (6, 7, 'Z'), (1, 1, 'W')), RP(O('abcdefgh'), (6, 7, 'X'), (1, 2, 'Y'), (6, 7, 'Z'), (1, 1, 'W'))),
 ]
 def _e(a, b, dyn=False): return (a, b, dyn)
 NEQ_QUICK = [
@@ -352,6 +432,7 @@ NEQ_QUICK = [
     ('rawbuf binary truncated sequences', _e({'kind': 'rawbuf', 'text': '', 'bytes': [0xE2]}, {'kind': 'rawbuf', 'text': '', 'bytes': [0xE2, 0x82]})),
     ('concat[raw binary] child bytes', _e(CC({'kind': 'raw', 'text': '', 'bytes': [0xC3]}, RS('a')), CC({'kind': 'raw', 'text': '', 'bytes': [0xE2]}, RS('a')))),
     ('replace added after an observation', _e(RP(O('abcd'), (2, 3, 'X', None, 1, ['hash']), (0, 1, 'Y')), RP(O('abcd'), (2, 3, 'X')))),
+    ('concat empty original child presence', _e(CC(O('', 'e.js'), O('a')), CC(O('a')))), ('concat empty original child name', _e(CC(O('', 'e.js'), O('a')), CC(O('', 'f.js'), O('a')))),
     ('cached inner', _e(CA(O('a?')), CA(O('b?')))), ('cached vs plain', _e(CA(O('ab')), O('ab'), True)), ('boxed concat vs flat leaf', _e(CC(RS('ab')), RS('ab'), True)),
 ]
 
@@ -364,6 +445,10 @@ def eq_jobs(tier, seed):
     for name, a, b in EQ_PAIRS:
         jobs.append(J('eq:' + name, 'jobs.eqhash:eqhash_job', dict(tree_a=a, tree_b=b, history_slots=0), timeout=600))
         jobs.append(J('eq+history:' + name, 'jobs.eqhash:eqhash_job', dict(tree_a=b, tree_b=a, history_slots=1), timeout=600))
+    if tier == 'thorough':
+        for name, t, slots in EQ_QUICK:
+            jobs.append(J('eq+1:' + name, 'jobs.eqhash:eqhash_job', dict(tree_a=t, history_slots=slots + 1), required=False, timeout=3000))
+            jobs.append(J('eq/dyn+1:' + name, 'jobs.eqhash:eqhash_job', dict(tree_a=t, history_slots=min(slots, 1) + 1, dyn=True), required=False, timeout=3000))
     return jobs
 
 
@@ -372,15 +457,61 @@ def neq_jobs(tier, seed):
     for name, (a, b, dyn) in NEQ_QUICK:
         jobs.append(J('neq:' + name, 'jobs.eqhash:eqhash_job', dict(tree_a=a, tree_b=b, relation='differ', dyn=dyn), timeout=600))
         if not dyn: jobs.append(J('neq/dyn+history:' + name, 'jobs.eqhash:eqhash_job', dict(tree_a=a, tree_b=b, relation='differ', dyn=True, history_slots=1), timeout=600))
+    if tier == 'thorough':
+        for name, (a, b, dyn) in NEQ_QUICK:
+            jobs.append(J('neq+2:' + name, 'jobs.eqhash:eqhash_job', dict(tree_a=a, tree_b=b, relation='differ', dyn=dyn, history_slots=2), required=False, timeout=3000))
+            jobs.append(J('neq/swapped+1:' + name, 'jobs.eqhash:eqhash_job', dict(tree_a=b, tree_b=a, relation='differ', dyn=dyn, history_slots=1), required=False, timeout=3000))
     return jobs
+
+
+C13_THOROUGH = [
+    ('flat:nested[[orig3,rawstr2],orig2b]', CC(BX(CC(O('???'), RS('!!'))), O('??', 'b.js')), 'flat'),
+    ('flat:nested[[orig2,rawstr1],[rawstr1,orig2b]]', CC(BX(CC(O('??'), RS('!'))), BX(CC(RS('!'), O('??', 'b.js')))), 'flat'),
+    ('flat:nested4[[[[orig2]],rawstr1],rawstr1]', CC(BX(CC(BX(CC(BX(CC(O('??'))))), RS('!'))), RS('!')), 'flat'),
+    ('flat:nested[[sms(ab/cd),rawstr1],orig1]', CC(BX(CC(SM('ab\ncd', 'AAAA,?AAA;?ACA', ('o.js',)), RS('!'))), O('?', 'b.js')), 'flat'),
+    ('flat:nested[[replace(orig ab;c,[sym X])],rawstr1]', CC(BX(CC(RP(O('ab;c'), (Q, Q, 'X')))), RS('!')), 'flat'),
+    ('flat:nested[cached(concat[orig2,rawstr1]),rawstr1]', CC(BX(CA(CC(O('??'), RS('!')))), RS('!')), 'uncached'),
+    ('noempty:concat[empty,empty,orig3,empty,empty]', CC(RS(''), O('', 'e.js'), O('???'), BX(CC()), RS('')), 'noempty'),
+    ('inner:boxed(boxed(replace(orig a;b,[sym X])))', BX(BX(RP(O('a;b'), (Q, Q, 'X')))), 'inner'),
+    ('inner:single[sms(ab/cd)]', CC(SM('ab\ncd', 'AAAA,?AAA;?ACA', ('o.js',))), 'inner'),
+    ('inner:replace(sms(abcd named),[])', RP(SM('abcd', 'AAAAA,?AAEC', ('o.js',), ('abcd',), ('n1', 'n2'))), 'inner'),
+    ('inner:replace(concat[orig ab,rawstr c/d],[])', RP(CC(O('a?'), RS('c\n!'))), 'inner'),
+    ('inner:single[orig4]/t', CC(O('????')), 'inner', 't'),
+]
 
 
 def c13_jobs(tier, seed):
     jobs = []
     for t in C13_QUICK:
         if t[2] == 'inner-if-empty': continue
-        jobs.append(J('tree:' + t[0], 'jobs.streams:tree_job', dict(tree=t[1], props=['C13'], alt=t[2]), timeout=600))
+        jobs.append(J('tree:' + t[0], 'jobs.streams:tree_job', dict(dict(tree=t[1], props=['C13'], alt=t[2]), **(t[3] if len(t) > 3 else {})), timeout=600))
+    if tier == 'thorough':
+        for t in C13_THOROUGH:
+            jobs.append(J('tree:' + t[0], 'jobs.streams:tree_job', dict(tree=t[1], props=['C13'], alt=t[2], alphabet=t[3] if len(t) > 3 else 'q'), required=False, timeout=3000))
     return jobs
+
+
+# CachedSource replay is a streaming path of its own (stored map + rope() of the inner source, measured line by line): the stream
+# properties must hold on it as well. Each tree is observed AFTER a history that fills the cache; the ones marked rope='real'
+# interpret rope.rs itself, because the replay derives the generated end position from Rope::lines / Rope::len.
+CACHED_QUICK = [
+    ('concat[cached(concat[orig x/??,orig c? b]),orig z c] (real rope.rs) after map', CC(CA(CC(O('x\n??'), O('c?', 'b.js'))), O('z', 'c.js')), dict(history=['map1'], rope='real')),
+    ('concat[rawstr,cached(concat[orig a?;b,rawstr2]),rawstr /,orig c?; b] after a stream of the parent', CC(RS('!'), CA(CC(O('a?;b'), RS('!!'))), RS('\n'), O('c?;', 'b.js')), dict(history=['c1f0'])),
+    ('cached(replace(orig abcdef,[sym OUT],[sym in])) after stream', CA(RP(O('abcdef'), (Q, Q, 'OUT'), (Q, Q, 'in'))), dict(history=['c1f0'])),
+    ('concat[replace(orig a;,[X/Y beyond end],[Z beyond end]),orig d?;e b] (real rope.rs)', CC(RP(O('a;'), (5, 5, 'X\nY'), (6, 6, 'Z')), O('d?;e', 'b.js')), dict(rope='real')),
+    ('concat[cached(replace(rawstr a/b,[X/Y beyond end],[Z beyond end])),orig d? b] (real rope.rs) after stream', CC(CA(RP(RS('a\nb'), (5, 5, 'X\nY'), (6, 6, 'Z'))), O('d?', 'b.js')), dict(history=['c1f0'], rope='real')),
+    ('cached(concat[sms(ab/cd),rawstr1]) after map (lines)', CA(CC(SM('ab\ncd', 'AAAA,?AAA;?ACA', ('o.js',), ('xy\nuv',)), RS('!'))), dict(history=['map0'])),
+]
+
+
+def cached_jobs(props):
+    def f(tier, seed):
+        jobs = []
+        for t in CACHED_QUICK:
+            p = dict(tree=t[1], props=props); p.update(t[2])
+            jobs.append(J('tree:' + t[0], 'jobs.streams:tree_job', p, timeout=900))
+        return jobs
+    return f
 
 
 def tree_jobs(props):
@@ -415,7 +546,11 @@ ROPE_QUICK = [
     ('append full+full, light+full', [['from_iter', ['?', '?']], ['from_iter', ['?\n', '?']], ['append', 0, 1], ['from', '?'], ['append', 2, 0], ['clone', 2], ['add', 3, '?']], ALLOBS),
     ('line across 4 fragments', [['from_iter', ['a\n?', '?', '?', '?\n?']], ['from_iter', ['?', '\n', '?', '?', '\n']]], ['basic', 'lines', 'pairs']),
     ('light ropes', [['from', '?\n?\n'], ['from', ''], ['from', '\u00e9\n'], ['slice', 0, '?', '?']], ALLOBS),
-]
+    # a line yielded by lines() is a Rope of its own: every observer must treat it like its flat string (offsets, len, bytes)
+    ('lines as ropes: last line across pieces', [['from_iter', ['x\n?b', 'c?']], ['line', 0, 1], ['line', 0, 0], ['from_iter', ['?\n', 'a\n?', '?', '?b']], ['line', 3, 2], ['line', 3, 1]], ALLOBS),
+    ('lines as ropes: middle line across pieces, slice of a line', [['from_iter', ['a\n?', '?', '?\n?', '\n']], ['line', 0, 1], ['line', 0, 2], ['line', 0, 3], ['slice', 1, '?', '?']], ALLOBS),
+] + [('slice form %s' % f_, [['from_iter', ['?a', '\u00e9?', '']], ['slice', 0, '?', '?', f_]], ['basic', 'bytes']) for f_ in ('to', 'to_incl', 'from', 'incl')] + [
+    ('light slice form %s' % f_, [['from', '?\u00e9?'], ['slice', 0, '?', '?', f_]], ['basic']) for f_ in ('to', 'to_incl', 'from', 'incl')]
 ROPE_THOROUGH = [
     ('5 pieces two slices', [['from_iter', ['?\n', '', '??', '\n', '?']], ['slice', 0, '?', '?'], ['slice', 0, '?', '?']], ALLOBS),
     ('append chains', [['new'], ['add', 0, '?'], ['add', 0, '\n'], ['from_iter', ['?', '?\n?']], ['append', 0, 1], ['append', 1, 0], ['slice', 1, '?', '?']], ALLOBS),
@@ -444,21 +579,21 @@ PROPS = {
                 outside='sequences longer than 3 mappings; simultaneous large values in several fields (argued by field independence, not discharged); deltas >= 2^30',
                 assumptions=['input mapping sequences are strictly sorted by generated position with lines >= 1 and original lines >= 1',
                              'decoder-vs-format jobs assume non-negative running values below 2^31 (as the property states)']),
-    'C01': dict(jobs=[tree_jobs(['C01']), replace_jobs(['C01']), sms_jobs(['C01']), combined_jobs(['C01'])], bounds=RTREE_BOUNDS, outside=TREE_OUTSIDE + '; CachedSource / SourceMapSource trees until their stages are registered', assumptions=TREE_ASSUME),
-    'C02': dict(jobs=[tree_jobs(['C02']), replace_jobs(['C02']), sms_jobs(['C02']), combined_jobs(['C02'])], bounds=RTREE_BOUNDS, outside=TREE_OUTSIDE + '; CachedSource / SourceMapSource trees until their stages are registered', assumptions=TREE_ASSUME),
-    'C03': dict(jobs=[tree_jobs(['C03']), replace_jobs(['C03']), sms_jobs(['C03']), combined_jobs(['C03'])], bounds=RTREE_BOUNDS, outside=TREE_OUTSIDE, assumptions=TREE_ASSUME),
-    'C04': dict(jobs=[tree_jobs(['C04']), replace_jobs(['C04'])], bounds=RTREE_BOUNDS, outside=TREE_OUTSIDE, assumptions=TREE_ASSUME),
+    'C01': dict(jobs=[tree_jobs(['C01']), replace_jobs(['C01']), sms_jobs(['C01']), combined_jobs(['C01']), cached_jobs(['C01'])], bounds=RTREE_BOUNDS, outside=TREE_OUTSIDE + '; CachedSource / SourceMapSource trees until their stages are registered', assumptions=TREE_ASSUME),
+    'C02': dict(jobs=[tree_jobs(['C02']), replace_jobs(['C02']), sms_jobs(['C02']), combined_jobs(['C02']), cached_jobs(['C02'])], bounds=RTREE_BOUNDS, outside=TREE_OUTSIDE + '; CachedSource / SourceMapSource trees until their stages are registered', assumptions=TREE_ASSUME),
+    'C03': dict(jobs=[tree_jobs(['C03']), replace_jobs(['C03']), sms_jobs(['C03']), combined_jobs(['C03']), cached_jobs(['C03'])], bounds=RTREE_BOUNDS, outside=TREE_OUTSIDE, assumptions=TREE_ASSUME),
+    'C04': dict(jobs=[tree_jobs(['C04']), replace_jobs(['C04']), cached_jobs(['C04'])], bounds=RTREE_BOUNDS, outside=TREE_OUTSIDE, assumptions=TREE_ASSUME),
     'C07': dict(jobs=[views_jobs], bounds={'quick': 'all trees of TREES_QUICK, REPLACE_QUICK (symbolic replacement ranges) and four SourceMapSource shapes: source(), rope(), buffer(), size(), to_writer() into a recording writer, and to_writer() into a writer that fails after a SYMBOLIC number k <= 64 of bytes', 'thorough': 'as quick'},
                 outside='multi-byte valid UTF-8 texts in the tree jobs (the lossy decoding of invalid buffers is covered by concrete binary leaves); the real Rope representation (C16)', assumptions=TREE_ASSUME + ['std::io::Write is modelled by a recording writer whose write_all accepts a prefix and then fails']),
     'C08': dict(jobs=[sms_jobs(['C08'])], bounds={'quick': 'catalog lib/props.py:SMS_QUICK: SourceMapSource leaves over concrete ASCII texts (1-3 lines, empty lines, trailing line break, empty text) whose maps are mapping-string templates with up to 5 SYMBOLIC single-digit VLQ fields (values < 6; assumed sorted, inside the text, indices in range), 1-2 sources, 0-2 names, with/without sourcesContent, sourceRoot none / empty / r / r/; streamed directly in all four (columns x final) modes, through map(), as first and second child of a ConcatSource and under a ReplaceSource', 'thorough': 'as quick'},
                 outside='multi-digit VLQ fields in the given map (the decoder itself is C12), texts longer than 3 lines, the user-defined-source entry stream_chunks_default (same function underneath), non-ASCII text', assumptions=TREE_ASSUME),
     'C05': dict(jobs=[replace_jobs(['C05'])], bounds=RTREE_BOUNDS, outside='texts longer than the catalog, more than 4 replacements, non-ASCII texts (engine K covers the real String/Rope code on multi-byte shapes when registered); rope()/buffer()/size() views are C07', assumptions=TREE_ASSUME),
-    'C06': dict(jobs=[tree_jobs(['C06']), replace_jobs(['C06']), sms_jobs(['C06'])], bounds=RTREE_BOUNDS, outside=TREE_OUTSIDE + '; SourceMapSource children with several sources/names until stage S2b is registered', assumptions=TREE_ASSUME),
+    'C06': dict(jobs=[tree_jobs(['C06']), replace_jobs(['C06']), sms_jobs(['C06']), cached_jobs(['C06'])], bounds=RTREE_BOUNDS, outside=TREE_OUTSIDE + '; SourceMapSource children with several sources/names until stage S2b is registered', assumptions=TREE_ASSUME),
     'C09': dict(jobs=[combined_jobs(['C09'])], bounds={'quick': 'catalog COMBINED_QUICK: SourceMapSource with an inner source map over concrete ASCII texts (<= 2 lines); outer and inner maps are mapping-string templates with up to 3 SYMBOLIC single-digit fields (outer original column into the inner source, inner generated/original columns, lines), 1-3 outer sources (the inner source name in first or second place), 1-2 inner sources with/without contents, names on either side, original_source given or taken from the outer sourcesContent, remove_original_source both ways; all four streams and map(); also as a child of a ConcatSource', 'thorough': 'as quick'},
                 outside='multi-digit VLQ fields, more than 2 lines, non-ASCII, inner maps that themselves came from a combination (just another map value here)', assumptions=TREE_ASSUME),
     'C10': dict(jobs=[c10_jobs], bounds={'quick': 'catalog C10_QUICK: CachedSource over Original / Raw / ConcatSource / ReplaceSource / SourceMapSource inners (<= 3 symbolic bytes or symbolic replacement range / map digits), CachedSource inside a ConcatSource / under a ReplaceSource / nested; CALL HISTORY of 2-3 slots whose operation the solver picks from {map(columns), map(lines), stream(columns), stream(lines), source, hash, clone-and-continue-on-the-clone}, then source, size, all four streams and both maps are compared with the wrapped source alone (text, end info, per-position attribution; file and line for columns=false)', 'thorough': 'as quick'},
                 outside='histories longer than 3 calls; texts beyond the catalog; attribution equality is per position, not chunk-for-chunk (the replay path legitimately coarsens chunks)', assumptions=TREE_ASSUME + ['DashMap is a finite map from MapOptions to heap cells (contracts.py); FxHasher::finish is an uninterpreted function of the written stream']),
-    'C11': dict(jobs=[tree_jobs(['C11']), replace_jobs(['C11']), sms_jobs(['C11']), combined_jobs(['C11']), codec_c11], bounds=RTREE_BOUNDS, outside=TREE_OUTSIDE, assumptions=TREE_ASSUME),
+    'C11': dict(jobs=[tree_jobs(['C11']), replace_jobs(['C11']), sms_jobs(['C11']), combined_jobs(['C11']), cached_jobs(['C11']), codec_c11], bounds=RTREE_BOUNDS, outside=TREE_OUTSIDE, assumptions=TREE_ASSUME),
     'C13': dict(jobs=[c13_jobs], bounds={'quick': 'catalog lib/props.py:C13_QUICK: nested boxed ConcatSource groupings (depth <= 3) vs the flat concatenation; single-child / empty-children ConcatSource, boxing and a ReplaceSource without replacements vs the wrapped source; <= 4 symbolic bytes; text, per-position attribution through map() (both column settings) and through the chunk stream, end info', 'thorough': 'as quick'},
                 outside=TREE_OUTSIDE + '; typed nesting flattened by ConcatSource::new/add and CachedSource wrappers until their stages are registered', assumptions=TREE_ASSUME),
     'C14': dict(jobs=[eq_jobs, neq_jobs], bounds={'quick': 'catalogs EQ_QUICK (13 shapes of every source type, symbolic bytes, built twice from the same ingredients; typed and through dyn Source; observer history of 1-2 solver-picked calls from {source, size, map, stream, hash, buffer, rope} applied to ONE of the two) and NEQ_QUICK (one-edit pairs): ==, == in the other direction, recorded Hash streams, clone == original with equal stream and equal source()', 'thorough': 'as quick'},
@@ -471,7 +606,7 @@ PROPS = {
                 outside='three threads; schedules with more switches; weak memory (all accesses are SeqCst in the crate; the model is sequentially consistent); switch points inside user-defined child sources; only the cache-entry-replacement class of counterexamples has a native forcing harness (real threads + a gated inner source), other interleavings would be reported as inconclusive', assumptions=['DashMap is modelled as ONE shard with a reader/writer lock held by the guards the real API returns; std Mutex / OnceLock block']),
     'C19': dict(jobs=[rope_jobs, wi_jobs, codec_c11, c18_jobs], bounds={'quick': 'unsafe sites reached through checked contracts: slice::get_unchecked / str::get_unchecked / Rope::byte_slice_unchecked (rope jobs of C16 and WithIndices::substring with SYMBOLIC char indices incl. usize::MAX over multi-byte &str and Rope lines), String::from_utf8_unchecked in both encoders (ASCII obligation on every drain)', 'thorough': 'as quick'},
                 outside='the transmute in replace_source.rs: the replacement vector is only borrowed while &self is borrowed and mutation needs &mut self (a type-system argument, not a query); misaligned access / allocator-level UB (no raw pointer arithmetic in the crate); sanitizer runs are not part of this technique', assumptions=['an unchecked operation is modelled as its checked form whose failure is reported']),
-    'C17': dict(jobs=[codec_c17, sms_jobs(['C17'], True), combined_jobs(['C17']), tree_jobs(['C17']), replace_jobs(['C17'])],
+    'C17': dict(jobs=[codec_c17, sms_jobs(['C17'], True), combined_jobs(['C17']), tree_jobs(['C17']), replace_jobs(['C17']), cached_jobs(['C17'])],
                 bounds={'quick': 'decoder: inductive step over ONE byte (all 256 values) from every decoder state satisfying the stated invariant - covers strings of every length < 2^31; '
                                  'plus all byte strings of length <= 3 and continuation runs of 12/13/14/20 digits in each of the 5 field slots, debug and release MIR',
                         'thorough': 'as quick plus all byte strings of length <= 5, continuation runs 1..40'},
